@@ -51,6 +51,18 @@ CLAIMED = {
         note="Trusted: TLC, TraitSet.tla (cross-checked per case against builtin set), item concretisation. Known "
              "finding F15 (symmetric difference with coerced items) is a named deviation action; F2 fixed in /repo.",
         design="4/C07"),
+    "C17": dict(
+        technique=TLA + "the _adapt priority-queue algorithm is model-checked against the declarative definition of "
+                  "successful adapter chains for every configuration; every enumerated configuration and seeded larger "
+                  "ones are instantiated with real classes/factories and the recorded adapt()/Supports/AdaptsTo results "
+                  "are judged by TLC against the declarative definition (Trace_Adaptation)",
+        text="Exhaustive model checking over all configurations of a 7-type hierarchy family (chains, multiple "
+             "inheritance, ABC virtual subclass) with 2 (quick) / 3 (thorough) offers incl. failing and conditional "
+             "factories; all 2-offer configurations replayed on the real AdaptationManager through five entry points; "
+             "random 3-7 offer configurations with cycles and late ABC registration judged by TLC.",
+        note="Trusted: TLC; the MRO table of the fixed class family in Adaptation.tla matches the generated Python "
+             "classes; factories' success depends only on their position in the chain.",
+        design="4/C17"),
 }
 
 NOT_YET = "check not built yet (work in progress in this round; see DESIGN.md section 4 for the planned specification)"
